@@ -24,12 +24,17 @@ from .c03 import terminal_on, infeasible, cancelling_flags
 from .c02 import _no_cb_inline
 
 
+MR = [None]
+
+
 def check(ctx, rep):
     prog = ctx.prog
     rep.rule("R-TABLE", "resolution table of MapFuture._delegate_resolved (helpers inlined) per class and stage: user functions called (which, how often, with what) and the resulting outcome for each delegate outcome x error_fn behaviour x map_fn behaviour x on_mapped behaviour")
     rep.rule("R-DEFAULT", "an omitted map function is the identity (f_return for flat_map); an omitted error function means the delegate's exception is propagated as is")
     rep.rule("R-PLUMB", "fn / error_fn given to MapExecutor, FlatMapExecutor, f_map and f_flat_map reach the future's map / error function fields unchanged, and the future is built on the delegate's future of the same submission")
-    mf = prog.cls("MapFuture")
+    from ..roles import map_roles
+    M = MR[0] = map_roles(ctx)
+    mf = M.mf
     from ..roles import registered_callbacks, is_identity, bound, std_inline
     cbs = [m for m, recv in registered_callbacks(ctx, mf).values() if recv != ("param", "self")]
     rep.require(len(cbs) == 1, "MapFuture: expected exactly one callback registered on the delegate, found %s" % [m.qualname for m in cbs])
@@ -37,15 +42,15 @@ def check(ctx, rep):
     CBNAME[0] = cb.name
     SELF = ("param", "self")
     D = ("param", cb.params[1])
-    MAPF = ("attr", SELF, "_map_fn")
-    ERRF = ("attr", SELF, "_error_fn")
+    MAPF = ("attr", SELF, M.mapf)
+    ERRF = ("attr", SELF, M.errf)
     flags = cancelling_flags(ctx)
     classes = [c for c in prog.subclasses(mf) if c.lookup(cb.name)[1] is cb]
     rep.count("MapFuture classes sharing the resolution callback", len(classes), 5)
     for ci in classes:
         stages = [("", None)]
-        if ci.name == "FlatMapFuture":
-            stages = [(" stage 1", ((("attr", SELF, "_FlatMapFuture__flattened"), ("const", False)),)),
+        if ci is M.fmf:
+            stages = [(" stage 1", ((("attr", SELF, M.flat), ("const", False)),)),
                       (" stage 2", None)]
         for sname, pre in stages:
             if sname == " stage 2":
@@ -103,8 +108,8 @@ def check(ctx, rep):
         for p in ps:
             if p.status == "raise":
                 continue
-            fnv = p.heap.get(("attr", SELF, "_fn"))
-            erv = p.heap.get(("attr", SELF, "_error_fn"))
+            fnv = p.heap.get(("attr", SELF, M.xfn))
+            erv = p.heap.get(("attr", SELF, M.xerrf))
             rep.ob("R-PLUMB", "%s.__init__ keeps fn" % cname, fnv == ("param", "fn"), "stores %s" % (fmt(fnv) if fnv else None), where_of(init))
             ok = isinstance(erv, tuple) and erv[0] == "call" and erv[1] == ("attr", ("kw", (), ("param", init.kwarg)), "get") and erv[2][:1] == (("const", "error_fn"),) and (len(erv[2]) == 1 or erv[2][1] == ("const", None))
             rep.ob("R-PLUMB", "%s.__init__ keeps error_fn" % cname, ok, "stores %s" % (fmt(erv) if erv else None), where_of(init))
@@ -120,7 +125,7 @@ def check(ctx, rep):
             if ok:
                 b = bound(mk[0], prog)
                 vals = [v for k, v in b.items() if isinstance(v, tuple)]
-                ok = any(v[:2] == ("call", subs[0].d["func"]) for v in vals) and b.get("map_fn") == ("attr", SELF, "_fn") and b.get("error_fn") == ("attr", SELF, "_error_fn")
+                ok = any(v[:2] == ("call", subs[0].d["func"]) for v in vals) and b.get("map_fn") == ("attr", SELF, M.xfn) and b.get("error_fn") == ("attr", SELF, M.xerrf)
             rep.ob("R-PLUMB", "%s.submit builds a %s on this submission's delegate future with (fn, error_fn)" % (cname, want_cls), ok, "constructed: %s" % ([fmt(e.d["func"]) + str([fmt(a) for a in e.d["args"]]) for e in mk]), where_of(sub), trace_of(p))
     # ---- plumbing: f_map / f_flat_map
     wrapf = prog.fn("base:wrap")
@@ -164,7 +169,8 @@ def _stage2_entry(ctx, rep, ci, cb):
     function; no helper is referred to by name."""
     from ..roles import is_identity, std_inline
     SELF = ("param", "self")
-    FLAT = ("attr", SELF, "_FlatMapFuture__flattened")
+    M = MR[0]
+    FLAT = ("attr", SELF, M.flat)
     # the stage flag: a field of the class initialised False by the constructor and stored True on the re-point path
     ps, it = ctx.paths(cb, ci, depth=7, pre=((FLAT, ("const", False)),), inline=_no_cb_inline)
     entry = None
@@ -184,15 +190,15 @@ def _stage2_entry(ctx, rep, ci, cb):
             continue
         r = q.result_of(ucalls[-1])
         newd = q.recv(regs[0])
-        dv = p.heap.get(("attr", SELF, "_delegate"))
-        rep.ob("R-TABLE", "FlatMapFuture stage 1 -> 2: the returned future becomes the delegate", (newd == r or newd == ("attr", SELF, "_delegate")) and dv == r, "the resolution callback must be registered on the future returned by the user's function (registered on %s, delegate is %s)" % (fmt(newd), fmt(dv) if dv else None), where_of(regs[0].fn, regs[0].node), trace_of(p))
+        dv = p.heap.get(("attr", SELF, M.deleg))
+        rep.ob("R-TABLE", "FlatMapFuture stage 1 -> 2: the returned future becomes the delegate", (newd == r or newd == ("attr", SELF, M.deleg)) and dv == r, "the resolution callback must be registered on the future returned by the user's function (registered on %s, delegate is %s)" % (fmt(newd), fmt(dv) if dv else None), where_of(regs[0].fn, regs[0].node), trace_of(p))
         st = {}
-        for k in ("_FlatMapFuture__flattened", "_map_fn", "_error_fn"):
+        for k in (M.flat, M.mapf, M.errf):
             st[k] = p.heap.get(("attr", SELF, k))
-        mfv = st.get("_map_fn")
+        mfv = st.get(M.mapf)
         rep.ob("R-TABLE", "FlatMapFuture stage 1 -> 2: map function neutralised", mfv is not None and is_identity(ctx, mfv), "after flattening _map_fn is %s" % (fmt(mfv) if mfv else "unchanged (the user's function would be applied to the flattened result again)"), where_of(regs[0].fn, regs[0].node), trace_of(p))
-        rep.ob("R-TABLE", "FlatMapFuture stage 1 -> 2: error function neutralised", st.get("_error_fn") == ("const", None), "after flattening _error_fn is %s: a failure of the flattened future would be handed to the user's error_fn and its return value would become the output's *value*" % (fmt(st["_error_fn"]) if st.get("_error_fn") else "left armed"), where_of(regs[0].fn, regs[0].node), trace_of(p))
-        rep.ob("R-TABLE", "FlatMapFuture stage 1 -> 2: stage recorded", st.get("_FlatMapFuture__flattened") == ("const", True), "", where_of(regs[0].fn, regs[0].node))
+        rep.ob("R-TABLE", "FlatMapFuture stage 1 -> 2: error function neutralised", st.get(M.errf) == ("const", None), "after flattening _error_fn is %s: a failure of the flattened future would be handed to the user's error_fn and its return value would become the output's *value*" % (fmt(st[M.errf]) if st.get(M.errf) else "left armed"), where_of(regs[0].fn, regs[0].node), trace_of(p))
+        rep.ob("R-TABLE", "FlatMapFuture stage 1 -> 2: stage recorded", st.get(M.flat) == ("const", True), "", where_of(regs[0].fn, regs[0].node))
         late = [e for e in p.evs("store") if e.seq > regs[0].seq and e.d["target"][0] == "attr" and e.d["target"][1] == SELF and e.d["target"][2] in st]
         rep.ob("R-TABLE", "FlatMapFuture stage 1 -> 2: neutralised before the new delegate is registered", not late, "%s is set only after the resolution callback was registered on the returned future: if that future is already done the callback runs first, with the user's functions still armed" % ", ".join(sorted(set(e.d["target"][2] for e in late))), where_of(regs[0].fn, regs[0].node), trace_of(p))
         entry = tuple(sorted(((("attr", SELF, k), v) for k, v in st.items() if v is not None), key=lambda kv: kv[0][2]))
@@ -241,7 +247,7 @@ def _row(p, it, D, MAPF, ERRF, SELF, flags, ci, pre):
     raised = [e for e in p.evs("raise")]
     caught = p.evs("catch")
     repoint = [e for e in p.calls() if q.call_name(e) == "add_done_callback" and len(e.d["args"]) == 1 and isinstance(e.d["args"][0], tuple) and e.d["args"][0][0] == "attr" and e.d["args"][0][1] == SELF and e.d["args"][0][2] == CBNAME[0]]
-    stage2 = pre is not None and dict(pre).get(("attr", SELF, "_FlatMapFuture__flattened")) == ("const", True)
+    stage2 = pre is not None and dict(pre).get(("attr", SELF, MR[0].flat)) == ("const", True)
     guards = [1 for t, v in p.branch_atoms() if v and ((isinstance(t, tuple) and t[0] == "call" and t[1] == ("attr", SELF, "done")) or (isinstance(t, tuple) and t[0] == "attr" and t[1] == SELF and t[2] in flags))]
     if "truthiness" in atoms:
         return ("delegate outcome decided by identity", False, "success/failure of the delegate is decided by the truth value of delegate.exception(): an exception object that is falsy (e.g. an aggregate error with __len__ == 0) would be mapped as a success; compare with None by identity")
